@@ -57,9 +57,16 @@ func (m *Machine) mapBlock(p *Term, write bool) *Block {
 		m.violate("fault", "map operation on a non-map pointer", nil)
 		panic(&pathEnd{"fault", "bad map pointer"})
 	}
+	if b.guard != 0 && !m.mutexes[b.guard] {
+		m.violate("monitor", "C08 access to lock-protected shared map ("+b.name+") without holding its mutex", nil)
+	}
 	if write {
 		if b.frozen && m.frozenOn {
-			m.violate("monitor", "M-frozen: write to frozen map "+b.name, nil)
+			if b.owner == "setup" || b.owner == "init" || b.owner == "global" {
+				m.violate("monitor", "C08 steady-state call writes a shared cache map without synchronisation ("+b.name+")", nil)
+			} else {
+				m.violate("monitor", "M-frozen: write to frozen map "+b.name, nil)
+			}
 		}
 		b = m.wblock(b)
 	}
